@@ -137,6 +137,16 @@ static void cexw(FILE *f) {
 }
 
 static uint64_t schedules, max_points; static uint64_t sched_by_bound[5];
+static uint32_t seq_live[2];
+static void seq_reference(int h0, int h1) {
+    for (int order = 0; order < 2; order++) {
+        vf_world_reset(); vf_trace_clear();
+        H[0] = h0; H[1] = h1;
+        if (order == 0) { run_hist(0); run_hist(1); } else { run_hist(1); run_hist(0); }
+        suffix(0); suffix(1);
+        seq_live[order] = vf_live_blocks();
+    }
+}
 
 /* one execution under a preemption set; returns number of points */
 static uint32_t execute(int h0, int h1, int first, const uint32_t *pre, int npre, int verbose) {
@@ -170,9 +180,11 @@ static uint32_t execute(int h0, int h1, int first, const uint32_t *pre, int npre
     if (o0 != solo_obs[0][h0] || o1 != solo_obs[1][h1]) {
         char sig[300]; snprintf(sig, sizeof sig, "isolation:concurrent-trace-differs-from-solo:preempted-in:%s", where[0] ? where : "none");
         vf_violation(sig, "interface %s: what it transmits (during the concurrent phase and in the observation suffix) differs from what the same history produces alone; preemptions in [%s]", o0 != solo_obs[0][h0] ? (o1 != solo_obs[1][h1] ? "A and B" : "A") : "B", where);
-    } else if (vf_live_blocks() != solo_live[0][h0] + solo_live[1][h1]) {
+    } else if (vf_live_blocks() != seq_live[0] && vf_live_blocks() != seq_live[1]) {
+        /* reference: the same two histories served one after the other by the same responder (either order) - a benign
+         * allocation shared by the interfaces is then counted once on both sides */
         char sig[300]; snprintf(sig, sizeof sig, "isolation:allocation-lost-or-leaked:preempted-in:%s", where[0] ? where : "none");
-        vf_violation(sig, "%u live allocations after the concurrent run, the two histories alone leave %u + %u", vf_live_blocks(), solo_live[0][h0], solo_live[1][h1]);
+        vf_violation(sig, "%u live allocations after the concurrent run; served one after the other the two histories leave %u (A first) or %u (B first); alone they leave %u + %u", vf_live_blocks(), seq_live[0], seq_live[1], solo_live[0][h0], solo_live[1][h1]);
     }
     if (W.led.bad_free || vf_check_canaries()) vf_violation("isolation:heap-corruption", "heap damaged in a concurrent run");
     return np;
@@ -208,7 +220,7 @@ int main(int argc, char **argv) {
         uint32_t pre[8]; int np = 0; for (int i = 3; i < nv; i++) pre[np++] = (uint32_t)vals[i];
         char n0[300], n1[300]; hist_name(vals[0], n0, sizeof n0); hist_name(vals[1], n1, sizeof n1);
         printf("thread A: %s\nthread B: %s\nfirst: %d, preemptions at points:", n0, n1, vals[2]); for (int i = 0; i < np; i++) printf(" %u", pre[i]); printf("\n");
-        solo(0, vals[0]); solo(1, vals[1]);
+        solo(0, vals[0]); solo(1, vals[1]); seq_reference(vals[0], vals[1]);
         A.verbose = 1; uint64_t st[2];
         for (int round = 0; round < 2; round++) { execute(vals[0], vals[1], vals[2], pre, np, round == 0); st[round] = SS.stream; }
         if (st[0] != st[1]) vf_harness_error("replay diverged: access streams differ");
@@ -222,7 +234,7 @@ int main(int argc, char **argv) {
     uint64_t pairs = 0, idx = 0;
     for (int h0 = 0; h0 < hmax; h0++) for (int h1 = 0; h1 < hmax; h1++) {
         if ((int)(idx++ % (uint64_t)A.nparts) != A.part) continue;
-        solo(0, h0); solo(1, h1);
+        solo(0, h0); solo(1, h1); seq_reference(h0, h1);
         for (int first = 0; first < 2; first++) { uint32_t pre[8]; explore(h0, h1, first, pre, 0); }
         pairs++;
         if (vf_now_s() - t0 > A.deadline) { R.cap_hit = "deadline"; break; }
